@@ -253,15 +253,16 @@ class LocalScheduleObject(CurrentPropertyListMixIn, ScheduleObject):
         # continue initialization
         ScheduleObject.__init__(self, **kwargs)
 
-        # attach an interpreter task
-        self._task = LocalScheduleInterpreter(self)
-
-        # add some monitors to check the reliability if these change
+        # add some monitors to check the reliability if these change, these
+        # come before the monitors of the interpreter so it sees the result
         for prop in ('weeklySchedule', 'exceptionSchedule', 'scheduleDefault'):
             self._property_monitors[prop].append(self._check_reliability)
 
         # check it now
         self._check_reliability()
+
+        # attach an interpreter task
+        self._task = LocalScheduleInterpreter(self)
 
     def _check_reliability(self, old_value=None, new_value=None):
         """This function is called when the object is created and after
